@@ -394,6 +394,9 @@ func mintERC20tokens(ctx *action.Context, tracker *trackerlib.Tracker, oltTx Rep
 	if err != nil {
 		return gov.ErrGetEthOptions
 	}
+	if ethTx.To() == nil {
+		return errors.New("the ethereum transaction has no recipient")
+	}
 	token, err := ethereum.GetToken(ethOpt.TokenList, *ethTx.To())
 	if err != nil {
 		return err
